@@ -120,6 +120,30 @@ def check_regex(ctx, led, f, call, module, pat, flags):
     )
     # ---- shape: (optional group)? class{n,}
     items = list(tree)
+    # anchors around the shape: the property's delimiters are the characters outside [A-Za-z:/]
+    # (or the text boundary); digits and '_' are such delimiters but are word characters, and a
+    # vector begins and ends with a letter, so a \b at either end fails exactly there
+    lead = []
+    while items and items[0][0] is sre_c.AT:
+        lead.append(items.pop(0)[1])
+    trail = []
+    while items and items[-1][0] is sre_c.AT:
+        trail.append(items.pop()[1])
+    for side, ats in (("before", lead), ("after", trail)):
+        for at in ats:
+            nm = str(at)
+            if "NON_BOUNDARY" in nm:
+                led.violation("C13.complete.anchor", ck_rx + " anchor", module.where(call), "\\B %s the candidate: a vector delimited by a blank or punctuation is never matched" % side)
+            elif "BOUNDARY" in nm:
+                led.violation(
+                    "C13.complete.anchor",
+                    ck_rx + " anchor",
+                    module.where(call),
+                    "\\b %s the candidate: a valid vector delimited by a digit, '_' or a non-ASCII letter (all outside [A-Za-z:/], all word "
+                    "characters) is not matched, e.g. 'x_AV:N/...' or '...A:P7'" % side,
+                )
+            else:
+                led.violation("C13.complete.anchor", ck_rx + " anchor", module.where(call), "the anchor %s %s the candidate restricts matches to the beginning / end of the text or of a line" % (nm, side))
     if not (
         len(items) == 2
         and items[0][0] is sre_c.MAX_REPEAT
